@@ -815,6 +815,13 @@ func cmdCheck(prop, tier string) int {
 			continue
 		}
 		site := fatalSite(out)
+		if class == "fatal-error" && site == "unknown" {
+			// the process died with no gmsm frame on any stack: the harness' own fault
+			crashesUnexplained++
+			unexplained = append(unexplained, "worker dies reproducibly on family="+ci.family+" run="+fmt.Sprint(ci.run)+" with no gmsm frame in the crash dump (harness bug):\n"+tailStr(out, 2000))
+			fmt.Printf("WORKER-DEATH harness crash on family=%s run=%d: %s\n", ci.family, ci.run, firstLine(out))
+			continue
+		}
 		key := class + "|" + site
 		if seenFatal[key] {
 			continue
